@@ -4,9 +4,12 @@ import CqlVerif.Drv.Util
 namespace CqlVerif.Drv.RetryStream
 open CqlVerif CqlVerif.Drv CqlVerif.Retry
 
-def parseOutcome (kind : String) (tok : String) : Outcome :=
+def parseOutcome (kind : String) (tok0 : String) : Outcome :=
+  -- `+w` / `+t` / `+p`: the same answer in a frame that also carries warnings / a tracing id / a custom payload
+  let tok := (tok0.splitOn "+").headD tok0
   match tok.splitOn ":" with
   | ["ok"] => .success
+  | ["idle"] => .connLost        -- silence, heart-beats included: the idle timeout closes the connection
   | ["silent"] => .silent
   | ["drop"] => .connLost
   | ["rt", a, b, d] => .readTimeout (a.toInt?.getD 0) (b.toInt?.getD 0) (d == "1")
@@ -34,7 +37,7 @@ def classOf : String → Bool
   | _ => false
 
 def nPrepares : String → Nat
-  | "ei" | "en" | "bp" => 1
+  | "ei" | "en" | "bp" | "ge" => 1
   | "bq" => 2
   | _ => 0
 
@@ -93,6 +96,12 @@ def handle (op real : String) : Verdict :=
     { kind := "spec", sig, key := "C05:host-twice", detail := s!"a host was tried twice in one traversal: {real}" }
   else if realAtt.length > s.hosts + 1 + RetrySpec.countReprepOk outs then
     { kind := "spec", sig, key := "C05:attempt-bound", detail := s!"more attempts than the bound: {real}" }
+  else if st.reply.isSome && realReply == "none" then
+    { kind := "spec", sig, key := "C01:unanswered", detail := s!"the request was never answered although every attempt was (expected {renderReply st.reply}): {op} -> {real}" }
+  else if (st.attempts.map hostName != realAtt) && (splitNE real " ").any (·.startsWith "att:") then
+    -- the hosts tried are a function of the documented policy (regenerated from the code's decision functions),
+    -- the plan order and what each attempt was answered with
+    { kind := "spec", sig, key := "C05:attempts-differ-from-policy", detail := s!"expected {model}: {op} -> {real}" }
   else if model ≠ real then { kind := "diff", sig, detail := model }
   else { kind := "ok", sig }
 
